@@ -9,8 +9,10 @@ from .paths import path_of
 META = {
     'explanation': 'E-GNF linear forms of TimePeriod(int32)/toSeconds/compareTo/negate, TimeOffset::forHourMinute/toHourMinute/'
                    'toSeconds, increment15Minutes and the field-increment helpers: decomposition by %60,/60,%60,/60 pairs with '
-                   'the Horner recomposition ((h*60)+m)*60+s, the sign is set from seconds<0 with negation and applied back, each '
-                   'helper reads and writes the same field with that field\'s modulus and offset.',
+                   'the Horner recomposition ((h*60)+m)*60+s, the sign is set from seconds<0 with negation and applied back '
+                   '(sign tests compared as formulas, so `< 0` with swapped arms or an if is the same); the mutation helpers and '
+                   'negate() are interpreted (E-SEQ, typed) on real object trees of ZonedDateTime / TimePeriod through the real '
+                   'accessors: each helper steps its own field through that field\'s whole cycle and leaves every other field alone.',
     'decided': 'constant and sign pairing of decomposition and recomposition; compareTo orders by signed seconds; negate writes only '
                'the sign; hour/minute composition 60*h+m with /60, %60; 15-minute step wraps above +16:00 to -16:00; helpers use '
                'moduli year 100, month 12 (+1), day 31 (+1), hour 24, minute 60 on the matching getter/setter pair, holding the '
